@@ -142,7 +142,12 @@ func (f *FieldCopyToGenerator) genZeroValue(fieldName string) func(*j.Group) {
 		}
 
 		// v.Null = v.Value == ""
-		if f.ZeroValue != "" {
+		if f.ZeroValue != "" && f.ParentIsOptionalEmbed {
+			// The field can only be read when the embedded parent is not nil (it is rendered as null otherwise)
+			g.If(j.Id("obj." + f.ParentIsOptionalEmbedFieldName).Op("!=").Nil()).Block(
+				j.Id("v.Null").Op("=").Id(f.i.WithType(f.ValueCastToType)).Parens(j.Id(fieldName)).Op("==").Id(f.ZeroValue),
+			)
+		} else if f.ZeroValue != "" {
 			g.Id("v.Null").Op("=").Id(f.i.WithType(f.ValueCastToType)).Parens(j.Id(fieldName)).Op("==").Id(f.ZeroValue)
 		} else {
 			g.Id("v.Null").Op("=").False()
